@@ -39,7 +39,7 @@ m = {
          "kind_free_text": "extract real functions from /repo (Python lexer/extractor, fixed rewrite catalogue), splice contracts from units/*.rs, discharge every obligation with Verus (z3); Kani/CBMC harnesses for bit-level codecs; real-crate replay for witnesses"},
     ],
     "checks": checks,
-    "notes": "See DESIGN.md. exit 0 = every obligation discharged and vacuity probes fail as they must; exit 1 = VIOLATION of a named obligation; exit 2 = undecided (tool limit / lost function), never an alarm. 17 genuine defects were repaired in /repo by 'fix:' commits and 3 are recorded as known findings (known_findings.json, DESIGN.md 9.3).",
+    "notes": "See DESIGN.md. exit 0 = every obligation discharged and vacuity probes fail as they must; exit 1 = VIOLATION of a named obligation; exit 2 = undecided (tool limit / lost function), never an alarm. 19 genuine defects were repaired in /repo by 'fix:' commits and 3 are recorded as known findings (known_findings.json, DESIGN.md 9.3).",
     "not_applicable": na,
 }
 json.dump(m, open(os.path.join(HERE, "MANIFEST.json"), "w"), indent=1)
